@@ -59,11 +59,15 @@ type env struct {
 	ctx    vcr.TestVCRContext
 	api    *v2.Wrapper
 	loader jsonld.JSONLD
+	// mirrors: did:nuts stores of other nodes that receive every DID document version published here as well
+	// (the same document and transaction, as the network would deliver it to them)
+	mirrors []didstore.Store
 }
 
 func newEnv(t *testing.T) *env {
 	logrus.SetOutput(io.Discard)
 	logrus.SetLevel(logrus.PanicLevel)
+	audit.VerifSilence()
 	e := &env{t: t, loader: jsonld.NewTestJSONLDManager(t)}
 	e.ctx = vcr.NewTestVCRContext(t, nutsCrypto.NewMemoryCryptoInstance(t))
 	e.api = &v2.Wrapper{VCR: e.ctx.VCR, ContextManager: e.loader}
@@ -116,6 +120,11 @@ func (e *env) publish(p *party, doc did.Document, at time.Time) {
 	}
 	if err := e.ctx.DIDStore.Add(doc, tx); err != nil {
 		e.t.Fatalf("didstore add: %v", err)
+	}
+	for _, m := range e.mirrors {
+		if err := m.Add(doc, tx); err != nil {
+			e.t.Fatalf("didstore add (mirror): %v", err)
+		}
 	}
 	p.doc, p.last = doc, tx.Ref
 	p.clock++
